@@ -60,9 +60,10 @@ enum Shape {
     Comps(Vec<Option<CompInfo>>),
 }
 
-/// true iff the text is a canonical path of standard indices (the only texts that must be accepted)
-pub fn text_is_canonical_path(text: &str) -> bool {
-    matches!(expectation(&analyse(text)), Expect::Valid(_))
+/// true iff the property obliges the tool to refuse this path text (texts it leaves open - a bare m, '+', leading
+/// zeros - may legitimately be accepted and searched)
+pub fn text_must_be_refused(text: &str) -> bool {
+    matches!(expectation(&analyse(text)), Expect::MustErr(..))
 }
 
 /// Byte-level scanner (deliberately not built from strip_prefix/split, which
